@@ -321,6 +321,9 @@ def run_shard(spec):
                     cm = cache.get_metadata(canon)
                     try:
                         json.dumps(st3.metadata)
+                        from liquer.state_types import encode_state_data
+
+                        encode_state_data(st3.get())
                         writable = True
                     except Exception:
                         writable = False     # the cache cannot have written this result (see above)
